@@ -390,6 +390,13 @@ func mergeContracts(dst, src *Contract) {
 	dst.Uses = append(dst.Uses, src.Uses...)
 	dst.UsesAtRet = append(dst.UsesAtRet, src.UsesAtRet...)
 	dst.Ghosts = append(dst.Ghosts, src.Ghosts...)
+	dst.Calls = append(dst.Calls, src.Calls...)
+	for k, v := range src.LoopCalls {
+		if dst.LoopCalls == nil {
+			dst.LoopCalls = map[int][]string{}
+		}
+		dst.LoopCalls[k] = append(dst.LoopCalls[k], v...)
+	}
 	for k, v := range src.LoopUse {
 		if dst.LoopUse == nil {
 			dst.LoopUse = map[int][]Clause{}
